@@ -643,7 +643,9 @@ def guard_inventory(P, files):
         gs = guards_of(P, fn)
         fl = fn['loc'].rsplit(':', 1)[0]
         for g in gs:
-            k = '%s => %s' % (g.rel, ','.join(sorted(g.errs)))
+            # `fails when c` and `fails when !c` are one key (`all(p)` vs `any(!p)`, `is_none()` vs `!is_some()`); the polarity of
+            # ordered / equality comparisons is kept
+            k = '%s => %s' % ('cond' if g.rel in ('truth', 'not') else g.rel, ','.join(sorted(g.errs)))
             out.setdefault(fl, {})
             out[fl][k] = out[fl].get(k, 0) + 1
             hints.setdefault(fl, {}).setdefault(k, set()).add(owner_qual(P, fn))
@@ -1256,10 +1258,42 @@ def _drop_elements(s):
         s = s[:i] + '_' + s[j:]
 
 
+_PASS_THROUGH = ('Option::ok_or(', 'Option::ok_or_else(', 'Result::map_err(', 'Result::ok(')
+
+
+def _unwrap_pass_through(s):
+    """`Option::ok_or(X, E)` / `ok_or_else(X, f)` / `Result::map_err(X, f)` / `Result::ok(X)` -> X: they hand X through and only say
+    what an absent value turns into (`x.ok_or(E)?` and `let Some(..) = x else { return Err(E) }` are one check)"""
+    changed = True
+    while changed:
+        changed = False
+        for tag in _PASS_THROUGH:
+            i = s.find(tag)
+            if i < 0 or (i > 0 and (s[i - 1].isalnum() or s[i - 1] in '_:')):
+                continue
+            j, depth, first_end = i + len(tag), 1, None
+            while j < len(s) and depth:
+                c = s[j]
+                if c in '([{':
+                    depth += 1
+                elif c in ')]}':
+                    depth -= 1
+                elif c == ',' and depth == 1 and first_end is None:
+                    first_end = j
+                j += 1
+            if depth:
+                continue
+            inner_end = first_end if first_end is not None else j - 1
+            s = s[:i] + s[i + len(tag):inner_end] + s[j:]
+            changed = True
+    return s
+
+
 def normalise_operand(s):
     """abstract local / parameter names, keep field names, callee names and constants"""
     s = re.sub(r'\{closure:\{closure#\d+\}\}', '{closure}', s)
     s = _drop_elements(s)
+    s = _unwrap_pass_through(s)
     s = re.sub(r'(?<![\w.])_\d+\b', '_', s)
     s = _IDENT.sub('_', s)
     s = re.sub(r'promoted\[\d+\]', 'promoted', s)
@@ -1508,3 +1542,114 @@ def wiring_inventory(P, files):
                 hints.setdefault(fl, {}).setdefault(key, set()).add(oq)
     wiring_inventory.hints = {f: {k: sorted(v) for k, v in d.items()} for f, d in hints.items()}
     return out
+
+
+# ------------------------------------------------------------------------------ variant maps (`match e { A => X::P, B => X::Q }`)
+_SKIP_ENUM = re.compile(r'(option::Option|result::Result|ops::ControlFlow|task::Poll|cmp::Ordering)\b')
+
+
+def _adt_for_type(P, ty):
+    t = re.sub(r'^&+(mut )?', '', ty)
+    t = re.sub(r'<.*', '', t).strip()
+    if not t or _SKIP_ENUM.search(t):
+        return None
+    if t in P.adts:
+        return P.adts[t]
+    tail = t.split('::')
+    cands = [a for k, a in P.adts.items() if k.split('::')[-len(tail):] == tail]
+    if len(cands) == 1:
+        return cands[0]
+    cands = [a for a in cands if a['kind'] == 'Enum']
+    return cands[0] if len(cands) == 1 else None
+
+
+def variant_map_inventory(P, files):
+    """{source file: {"E::V => T::W": count}}: for every `match` on an enum E of the workspace whose arms give one value
+    (the arms assign the same local, or the return place) an enum variant / string constant, which variant of E yields which
+    value. A conversion between two enums that confuses two variants (`NewMember => Sender::NewMemberCommit`) changes a key."""
+    out = {}
+    hints = {}
+    for fn in fns_in_files(P, files):
+        if fn.get('mac'):
+            continue
+        body = P.body(fn)
+        for bi, b in enumerate(body.B):
+            t = b['term']
+            if b.get('cu') or t['k'] != 'switch' or t['d']['k'] not in ('copy', 'move') or t['d']['pl']['p']:
+                continue
+            adt = None
+            for d in body.defs.get(t['d']['pl']['l'], []):
+                if d[0] == 'st' and d[1]['k'] == 'discr':
+                    adt = _adt_for_type(P, d[1].get('ty', ''))
+            if adt is None or adt['kind'] != 'Enum':
+                continue
+            by_discr = {str(v['discr']): v['name'] for v in adt['variants']}
+            arms = {}       # target block -> [variant names]
+            for v, tgt in t['ts']:
+                arms.setdefault(tgt, []).append(by_discr.get(str(v), '#' + str(v)))
+            named = set(n for ns in arms.values() for n in ns)
+            o_t = t['o']
+            if o_t is not None and o_t >= 0 and body.B[o_t]['term']['k'] != 'unreachable':
+                rest = sorted(set(by_discr.values()) - named)
+                arms.setdefault(o_t, []).extend(rest if 0 < len(rest) <= 3 else ['_'])
+            # values each arm gives: whole-local assignments in the blocks the arm target dominates
+            per_arm = {}
+            for tgt, names in arms.items():
+                if len(body.preds(tgt)) != 1:
+                    continue
+                vals = {}
+                for x in range(len(body.B)):
+                    if body.B[x].get('cu') or not (x == tgt or body.dominates(tgt, x)):
+                        continue
+                    for st in body.B[x]['st']:
+                        if st['lhs']['p']:
+                            continue
+                        v = _variant_value(P, body, st['rv'])
+                        if v:
+                            vals.setdefault(st['lhs']['l'], set()).add(v)
+                per_arm[tgt] = (names, vals)
+            # locals that receive a value in at least two arms = the result of the match
+            cnt = collections.Counter(l for _, vals in per_arm.values() for l in vals)
+            E = adt['path'].split('::')[-1]
+            fl = fn['loc'].rsplit(':', 1)[0]
+            for tgt, (names, vals) in per_arm.items():
+                for l, vs in vals.items():
+                    if cnt[l] < 2 or len(vs) != 1:
+                        continue
+                    key = '%s::%s => %s' % (E, '|'.join(sorted(names)), next(iter(vs)))
+                    out.setdefault(fl, {})
+                    out[fl][key] = out[fl].get(key, 0) + 1
+                    hints.setdefault(fl, {}).setdefault(key, set()).add(owner_qual(P, fn))
+    variant_map_inventory.hints = {f: {k: sorted(v) for k, v in d.items()} for f, d in hints.items()}
+    return out
+
+
+def _variant_value(P, body, rv, depth=0):
+    if rv['k'] == 'agg' and rv['what'].startswith('adt:'):
+        path = rv['what'][4:]
+        parts = path.split('::')
+        if len(parts) >= 2:
+            en, var = parts[-2], parts[-1]
+            if en in ('Result', 'Option', 'ControlFlow') and rv['ops'] and depth < 2:
+                op = rv['ops'][0]
+                if op['k'] in ('copy', 'move') and not op['pl']['p']:
+                    ds = body.defs.get(op['pl']['l'], [])
+                    if len(ds) == 1 and ds[0][0] == 'st':
+                        inner = _variant_value(P, body, ds[0][1], depth + 1)
+                        if inner:
+                            return '%s(%s)' % (var, inner)
+                return None
+            owner = '::'.join(parts[:-1])
+            adt = P.adts.get(owner)
+            if adt is not None and adt['kind'] == 'Enum':
+                return '%s::%s' % (en, var)
+        return None
+    if rv['k'] == 'use' and rv['o']['k'] == 'const':
+        c = rv['o']['v']
+        ty = c.get('ty', '')
+        if re.search(r'\bstr\b|\[u8', ty):
+            return 'const ' + str(c.get('c'))[:60]
+        if '::' in str(c.get('c', '')) and re.match(r'^[\w:]+$', str(c.get('c'))) and ty not in ('bool', '()'):
+            # unit-like variant / associated constant written as a path
+            return 'const ' + '::'.join(str(c['c']).split('::')[-2:])
+    return None
